@@ -2,7 +2,7 @@
    This file holds only the property theorems; each is closed by an exact lemma and
    followed by Print Assumptions. *)
 From Coq Require Import ZArith List Bool.
-From FV Require Import Generated.NodeID Lib.Hex C20.Model C20.Proofs C20.Source.
+From FV Require Import Generated.NodeID Lib.Hex C20.Model C20.Proofs C20.Source C20.IdSet.
 Import ListNotations.
 Open Scope Z_scope.
 
@@ -67,6 +67,24 @@ Proof.
   intros s i H. repeat split; [exact (src_make s i H) | exact (src_backend _ (make_node_range s i H))].
 Qed.
 Print Assumptions c20_src_is_model.
+
+(* ---- extension: NodeIDSet (nodeid.go:67 = collections.OrderedIDSet), the set of node ids
+   kept as a sorted slice.  For every sequence of Insert/Delete from the empty set: *)
+
+(* the slice is strictly increasing (so every id is present at most once) *)
+Theorem c20_idset_sorted : forall ops, Sorted.StronglySorted Z.lt (IdSet.run ops).
+Proof. exact IdSet.run_sorted. Qed.
+Print Assumptions c20_idset_sorted.
+
+(* an id is in the slice iff it was inserted and not deleted since *)
+Theorem c20_idset_is_set : forall ops x, In x (IdSet.run ops) <-> IdSet.member x ops false = true.
+Proof. exact IdSet.run_member. Qed.
+Print Assumptions c20_idset_is_set.
+
+(* Has (binary search) answers membership on every reachable slice *)
+Theorem c20_idset_has : forall ops x, IdSet.has x (IdSet.run ops) = true <-> In x (IdSet.run ops).
+Proof. intros ops x. apply IdSet.has_iff. apply IdSet.run_sorted. Qed.
+Print Assumptions c20_idset_has.
 
 (* non-vacuity: the hypotheses are met by a non-trivial pair, and the model computes *)
 Example c20_example :
